@@ -24,6 +24,7 @@ EXPLANATION = (
     "specialised type from the types of all arguments. R16.6: state written on the dispatch path is invalidated by registration. R16.7: "
     "a precise type reported for a container is validated against (or widened for) every element. NOT decided: reflexivity, transitivity "
     "and instance agreement of the recursive subtype relation over all runtime types."
+    ' Added since: R16.6 nothing on the registration path refills the dispatch cache.'
 )
 ASSUMPTIONS = [
     "multipledispatch.Dispatcher.dispatch is a function of the registered signatures and the type tuple; Dispatcher.add clears its _cache",
